@@ -700,6 +700,9 @@ def run(ctx):
                                   vstar, describe_bits(w), kind, scn.get("name")), no_input=True)
             if ctx.too_many(9):
                 break
+    # oracle-only stream: files with CRLF / CR line ends edited several times inside a failing composite
+    from harness import c10_newlines
+    c10_newlines.run(ctx, judge, replay_obj)
     ctx.extra["extended_schedule_runs"] = len(probes)
     ctx.extra["statically_certified_cases"] = certified
     ctx.extra["cases_in_theorem_domain"] = in_domain
